@@ -316,6 +316,40 @@ func (httpdFake) AddRoutes([]httpd.Route) error { return nil }
 func (httpdFake) DelRoutes([]httpd.Route)       {}
 func (httpdFake) URL() string                   { return "http://localhost:9092/kapacitor/v1" }
 
+// StrictHTTPD refuses a pattern that is already registered, as the real mux does (a task with two httpOut nodes of
+// the same endpoint fails at run time: a way to obtain a failed task).
+type StrictHTTPD struct {
+	mu     sync.Mutex
+	routes map[string]bool
+}
+
+func NewStrictHTTPD() *StrictHTTPD { return &StrictHTTPD{routes: map[string]bool{}} }
+
+func (h *StrictHTTPD) AddRoutes(rs []httpd.Route) error {
+	h.mu.Lock()
+	defer h.mu.Unlock()
+	for _, r := range rs {
+		k := r.Method + " " + r.Pattern
+		if h.routes[k] {
+			return fmt.Errorf("pattern %q already registered", r.Pattern)
+		}
+	}
+	for _, r := range rs {
+		h.routes[r.Method+" "+r.Pattern] = true
+	}
+	return nil
+}
+
+func (h *StrictHTTPD) DelRoutes(rs []httpd.Route) {
+	h.mu.Lock()
+	defer h.mu.Unlock()
+	for _, r := range rs {
+		delete(h.routes, r.Method+" "+r.Pattern)
+	}
+}
+
+func (*StrictHTTPD) URL() string { return "http://localhost:9092/kapacitor/v1" }
+
 type taskStoreFake struct{}
 
 func (taskStoreFake) SaveSnapshot(id string, snapshot *kapacitor.TaskSnapshot) error { return nil }
